@@ -29,15 +29,44 @@ GOENV.update({
 GO = "go1.26"
 
 FORBIDDEN = re.compile(
-    r"\b(Admitted|admit|Axiom|Axioms|Parameter|Parameters|Conjecture|Conjectures|"
-    r"Admit Obligations|bypass_check|native_compute)\b|Unset Guard Checking|"
-    r"Unset Positivity Checking|Unset Universe Checking|type-in-type|impredicative-set")
+    r"\b(Admitted|admit|give_up|Axiom|Axioms|Parameter|Parameters|Conjecture|Conjectures|"
+    r"Admit Obligations|Obligation|Obligations|bypass_check|native_compute|native_cast_no_check|Program|Equations)\b|"
+    r"Unset\s+Guard\s+Checking|Unset\s+Positivity\s+Checking|Unset\s+Universe\s+Checking|Unset\s+Kernel\s+Term\s+Sharing|"
+    r"type-in-type|impredicative-set|dependent\s+(?:destruction|induction|inversion|rewrite)|"
+    # extraction: nothing but `Require Extraction`, `Require ExtrOcamlBasic`, `Extraction Language`, `Extraction "file" names`
+    r"Extract\s+(?:Inlined\s+)?Constant|Extract\s+Inductive|Extraction\s+Implicit|Extraction\s+Inline|Extraction\s+NoInline|"
+    r"\bExtr(?:Ocaml|OCaml|Haskell)(?!Basic\b)\w*|\bExtrHaskell\w*|"
+    # declarations that add to the trusted base without being called Axiom
+    r"(?:^|\.\s)\s*(?:(?:Local|Global|Polymorphic|Monomorphic|Private|#\[[^\]]*\])\s+)*"
+    r"(?:Primitive|Register|Declare\s+ML\s+Module|Declare\s+Instance|Load|Add\s+(?:Rec\s+)?LoadPath|Add\s+ML\s+Path)\b")
 
-# stdlib axioms that would be tolerated if a tactic pulled them in (none is expected)
+# the only sentences allowed in coq/extract/*.v
+EXTRACT_OK = re.compile(
+    r"^(?:Require\s+(?:Import\s+)?(?:Extraction|ExtrOcamlBasic)|From\s+(?:Coq|GS)\s+Require\s+Import\s+[\w\s]+|"
+    r"Extraction\s+Language\s+OCaml|Extraction\s+\"m_\w+\.ml\"[\s\w.']+)$")
+
+# stdlib axioms: tolerated ONLY when the claim (checks/claims/<Cxx>.json note) names them (HOWTO); none is used today
 ALLOWED_AXIOMS = {
     "functional_extensionality_dep", "JMeq_eq", "proof_irrelevance", "classic",
     "Eqdep.Eq_rect_eq.eq_rect_eq", "eq_rect_eq",
 }
+
+
+def axioms_not_allowed(pid, axioms):
+    """An axiom printed by Print Assumptions is accepted only if it is a known stdlib axiom AND the property's claim
+    note names it.  Returns the offending ones."""
+    try:
+        note = json.load(open(os.path.join(VERIF, "checks", "claims", pid + ".json"))).get("note", "")
+    except (OSError, ValueError):
+        note = ""
+    bad = []
+    for x in axioms:
+        short = x.split(".")[-1]
+        known = x in ALLOWED_AXIOMS or short in ALLOWED_AXIOMS
+        named = re.search(r"\b%s\b" % re.escape(short), note) is not None
+        if not (known and named):
+            bad.append(x)
+    return bad
 
 
 def sh(cmd, cwd=None, env=None, timeout=None, inp=None):
@@ -124,6 +153,27 @@ def coq_flags():
     return fl
 
 
+def parse_assumptions(out):
+    """Names listed by `Print Assumptions` in coqc's output.  A block is `Axioms:` followed by entries
+    `name : type` or `name` alone with the type on indented continuation lines; it ends at the next non-indented line
+    that is not an entry (`Closed under the global context`, another `Axioms:`, a message).  Returns (names, #blocks)."""
+    names, blocks, inside = [], 0, False
+    for l in out.splitlines():
+        if l.strip() in ("Axioms:", "Section Variables:"):
+            inside, blocks = True, blocks + 1
+            continue
+        if not inside:
+            continue
+        if l[:1] in (" ", "\t") or not l.strip():
+            continue
+        m = re.match(r"^([\w.']+)\s*(?::.*)?$", l)
+        if m and l.strip() != "Closed under the global context" and not l.startswith(("File ", "Warning", "Error")):
+            names.append(m.group(1))
+        else:
+            inside = False
+    return names, blocks
+
+
 def coq_assumptions(prop_file):
     """Re-check props/Cxx.v with coqc and parse the Print Assumptions output.
     Returns dict(theorems=[...], closed=n, axioms=[...], ok=bool, log=str)."""
@@ -134,42 +184,60 @@ def coq_assumptions(prop_file):
     examples = re.findall(r"^\s*Example\s+(\w+)", src, re.M)
     printed = re.findall(r"^\s*Print Assumptions\s+(\w+)", src, re.M)
     closed = out.count("Closed under the global context")
-    axioms = []
-    for m in re.finditer(r"^Axioms:\n((?:.+\n?)+?)(?=^\S|\Z)", out, re.M):
-        for l in m.group(1).splitlines():
-            mm = re.match(r"^([\w.]+)\s*:", l)
-            if mm:
-                axioms.append(mm.group(1))
-    # also catch single-line forms
-    for m in re.finditer(r"^([\w.]+)\s*:.*$", out, re.M):
-        pass
+    axioms, blocks = parse_assumptions(out)
     unprinted = [t for t in theorems if t not in printed]
     return {"ok": rc == 0, "theorems": theorems, "examples": examples, "printed": printed,
-            "closed": closed, "axioms": sorted(set(axioms)), "unprinted": unprinted, "log": out}
+            "closed": closed, "axioms": sorted(set(axioms)), "axiom_blocks": blocks, "unprinted": unprinted, "log": out}
+
+
+def strip_comments(txt):
+    prev = None
+    while prev != txt:       # innermost first, so nested comments go too
+        prev = txt
+        txt = re.sub(r"\(\*(?:(?!\(\*|\*\)).)*\*\)", lambda m: re.sub(r"[^\n]", " ", m.group(0)), txt, flags=re.S)
+    return txt
 
 
 def audit():
-    """Grep the development for forbidden declarations/flags.  Returns list of hits."""
+    """Grep the development for forbidden declarations/flags.  Returns list of hits.  Deliberately stricter than needed
+    (a word such as Program in an identifier-free position is a hit even where it would be harmless)."""
     hits = []
-    for f in glob.glob(os.path.join(COQ, "**", "*.v"), recursive=True):
-        txt = open(f).read()
-        # strip comments (non-nested is enough for our files; nested handled by loop)
-        prev = None
-        while prev != txt:
-            prev = txt
-            txt = re.sub(r"\(\*(?:(?!\(\*|\*\)).)*\*\)", " ", txt, flags=re.S)
-        for i, line in enumerate(txt.splitlines(), 1):
+    for f in sorted(glob.glob(os.path.join(COQ, "**", "*.v"), recursive=True)):
+        rel = os.path.relpath(f, VERIF)
+        txt = strip_comments(open(f).read())
+        # string literals cannot hold a command ("" is the escaped quote); blank them so that table entries such as
+        # "Load" in coq/gen/AccessTable.v are not hits
+        txt = re.sub(r'"(?:[^"]|"")*"', lambda m: '"' + re.sub(r"[^\n]", "_", m.group(0)[1:-1]) + '"', txt)
+        lines = txt.splitlines()
+        depth = 0
+        for i, line in enumerate(lines, 1):
             if FORBIDDEN.search(line):
-                hits.append("%s:%d: %s" % (os.path.relpath(f, VERIF), i, line.strip()))
-            if re.match(r"^\s*(Variable|Variables|Hypothesis|Hypotheses)\b", line):
-                # allowed only inside a Section: checked crudely by requiring a Section before it
-                before = "\n".join(txt.splitlines()[:i])
-                if before.count("Section ") <= before.count("\nEnd "):
-                    hits.append("%s:%d: %s (outside a section)" % (os.path.relpath(f, VERIF), i, line.strip()))
-    for f in ["_CoqProject"]:
-        txt = open(os.path.join(COQ, f)).read()
-        if re.search(r"type-in-type|impredicative-set|-vos|-vok", txt):
-            hits.append("%s: forbidden flag" % f)
+                hits.append("%s:%d: %s" % (rel, i, line.strip()))
+            if re.match(r"^\s*(?:Local\s+|Global\s+|#\[[^\]]*\]\s*)*(Variable|Variables|Hypothesis|Hypotheses|Context)\b", line):
+                # allowed only inside a Section
+                if depth + len(re.findall(r"(?:^|\.\s)\s*Section\s+\w+\s*\.", line)) <= 0:
+                    hits.append("%s:%d: %s (outside a section)" % (rel, i, line.strip()))
+            depth += len(re.findall(r"(?:^|\.\s)\s*Section\s+\w+\s*\.", line))
+            depth -= len(re.findall(r"(?:^|\.\s)\s*End\s+\w+\s*\.", line))
+            depth = max(depth, 0)   # (a Module's End is not told apart: Modules are not used; erring towards a hit)
+        if os.path.basename(os.path.dirname(f)) == "extract":
+            raw = strip_comments(open(f).read())
+            for sent in re.split(r"\.(?:\s+|$)", raw):
+                sent = " ".join(sent.split())
+                if sent and not EXTRACT_OK.match(sent):
+                    hits.append("%s: sentence not allowed in an extraction file: %s" % (rel, sent[:120]))
+    cp = os.path.join(COQ, "_CoqProject")
+    for line in open(cp):
+        line = line.strip()
+        if line and not re.match(r"^-Q (lib|model|proofs|props|gen) GS$", line) and not re.match(r"^[\w/]+\.v$", line):
+            hits.append("_CoqProject: line not allowed: %s" % line)
+    for extra in ("Makefile.local", "Makefile.local-late", "Makefile.coq.local"):
+        if os.path.exists(os.path.join(COQ, extra)):
+            hits.append("coq/%s exists (it could add flags such as -type-in-type, -noinit, -indices-matter)" % extra)
+    mc = os.path.join(COQ, "Makefile.conf")
+    if os.path.exists(mc):
+        for m in re.finditer(r"^(COQMF_OTHERFLAGS|COQMF_COQ_SRC_SUBDIRS_EXTRA|COQMF_CMDLINE_COQLIBS)[ \t]*=[ \t]*(\S.*)$", open(mc).read(), re.M):
+            hits.append("coq/Makefile.conf: %s = %s" % (m.group(1), m.group(2)))
     return hits
 
 
@@ -475,7 +543,9 @@ def proof_leg(run, prop_file, proof_files, trusted_extra=()):
         NPROC, os.path.basename(prop_file))
     cov["proof_files"] = [prop_file] + list(proof_files)
     tb = ["Coq 8.16.1 kernel (coqc); vm_compute used, native_compute not used",
-          "no Axiom/Parameter/Admitted/admit in the development (audited by grep on every run)"]
+          "no Axiom/Parameter/Admitted/admit/give_up/Program/Equations, no Extract Constant/Inductive, no ExtrOcaml* but Basic, no "
+          "Primitive/Register/Declare ML Module, no extra coqc flags in the development (audited by grep on every run); a stdlib "
+          "axiom would be accepted only if the claim's note names it"]
     tb += list(trusted_extra)
     mine = set([prop_file] + [f for f in proof_files])
     # a property is affected by a failed file only if it depends on it (declared files + gen/)
@@ -503,8 +573,10 @@ def proof_leg(run, prop_file, proof_files, trusted_extra=()):
     cov["theorems"] = a["theorems"]
     cov["print_assumptions"] = {"closed_under_global_context": a["closed"], "axioms": a["axioms"],
                                 "theorems_printed": len(a["printed"])}
-    bad_ax = [x for x in a["axioms"] if x.split(".")[-1] not in ALLOWED_AXIOMS and x not in ALLOWED_AXIOMS]
-    if not a["ok"] or a["unprinted"] or bad_ax or (not a["axioms"] and a["closed"] < len(a["printed"])):
+    bad_ax = axioms_not_allowed(run.pid, a["axioms"])
+    # every printed theorem is either closed or has an Axioms block all of whose entries are allowed-and-named
+    if not a["ok"] or a["unprinted"] or bad_ax or a["closed"] + a["axiom_blocks"] < len(a["printed"]) \
+            or (a["axiom_blocks"] and not a["axioms"]):
         cov["discharged"] = 0
         cov["trusted_base"] = tb
         run.violation("assumptions:" + ",".join(bad_ax or a["unprinted"] or ["coqc"]),
